@@ -234,7 +234,8 @@ def _main(pid, mod, seed, tier, args, tmp, t0):
     reported = []
     unreproduced = 0
     seen = set()
-    outdir = VERIF / "replays" / pid
+    scratch = os.environ.get("VERIF_REPO", "/repo") != "/repo"    # sensitivity runs against a mutated copy
+    outdir = (Path("/tmp/verif-mut") / "replays" / pid) if scratch else (VERIF / "replays" / pid)
     for sig, detail, case in violations:
         key = (sig, case_hash(case))
         if key in seen:
@@ -248,6 +249,9 @@ def _main(pid, mod, seed, tier, args, tmp, t0):
         viols = run_replay_subprocess(pid, rp, tmp, seed, tier)
         if viols is None or not [v for v in viols if v["sig"] not in known_sigs]:
             unreproduced += 1
+            keep = os.environ.get("VERIF_KEEP_UNREPRO")
+            if keep:
+                shutil.copy(rp, keep)
             rp.unlink()
             sys.stderr.write("note: a violation (%s) did not reproduce in a fresh process; not reported\n" % sig)
             continue
@@ -284,8 +288,8 @@ def _main(pid, mod, seed, tier, args, tmp, t0):
         "violations": len(reported),
     }
     ev["coverage"].update(extra)
-    edir = VERIF / "evidence"
-    edir.mkdir(exist_ok=True)
+    edir = (Path("/tmp/verif-mut") / "evidence") if scratch else (VERIF / "evidence")
+    edir.mkdir(parents=True, exist_ok=True)
     (edir / ("%s.json" % pid)).write_text(json.dumps(ev, indent=1, default=str) + "\n")
     print("%s tier=%s seed=%d evaluations=%d distinct_nontrivial=%d known_hits=%d violations=%d wall=%.0fs" % (
         pid, tier, seed, evaluations, len(nontrivial), sum(known_hits.values()), len(reported), time.time() - t0))
